@@ -9,6 +9,7 @@
 
 #include <algorithm>
 #include <map>
+#include <set>
 #include <string>
 #include <vector>
 
@@ -31,6 +32,7 @@ struct CCell {
     std::vector<std::string> polys, paths, labels, refs, props;
     int close_path_vertices = 0;  // consecutive, distinct path vertices at most one grid step apart (raw lists)
     std::map<std::string, std::vector<IPt>> poly_pts;  // polygon line -> its (normalised) vertices
+    std::set<std::string> path_tolerances;  // curve tolerance of loaded paths, in grid steps (6 significant digits)
     // polygons excluded from `polys` because they are compared as regions: tag -> polygons
     std::map<uint64_t, std::vector<std::vector<IPt>>> region;
 };
